@@ -120,7 +120,7 @@ Proof.
   destruct (geti (its w) i) as [it|] eqn:Hg.
   - destruct (iown it) as [u|] eqn:O.
     + destruct (Nat.eq_dec u t) as [->|Hut].
-      * destruct (S i it Hg O) as (it' & Hg' & [[O' C]|[O' K']]).
+      * destruct (S i it Hg O) as (it' & Hg' & Rg' & [[O' C]|[O' K']]).
         -- (* stays with table t *)
            assert (Eo : it_owner w i = Some t) by (unfold it_owner; rewrite Hg; exact O).
            assert (Eo' : it_owner (put_ti w t h' I') i = Some t) by (unfold it_owner; rewrite its_put, Hg'; exact O').
@@ -151,9 +151,19 @@ Proof.
     + intros u' Ou. unfold it_owner in Ou. rewrite Hg in Ou. discriminate.
 Qed.
 
-(* an iterator that never registered (created on an empty table) is permanently without cookie *)
-Definition calm_or (w w' : world) (i : nat) : Prop :=
-  calm_rel w w' i \/ (exists it, geti (its w) i = Some it /\ geti (its w') i = Some it /\ inoreg it = true).
+(* the designated iterator is a registered one (its NOREGISTER flag is off) *)
+Definition reg (w : world) (i : nat) : Prop := exists it, geti (its w) i = Some it /\ inoreg it = false.
+
+Lemma reg_of_tstep : forall w t h' I', frame t (its w) I' -> tscalm t (gett w t) (its w) h' I' ->
+  forall i, reg w i -> reg (put_ti w t h' I') i.
+Proof.
+  intros w t h' I' F S i (it & Hg & R). rewrite its_put || idtac. unfold reg. rewrite its_put.
+  destruct (iown it) as [u|] eqn:O.
+  - destruct (Nat.eq_dec u t) as [->|Hut].
+    + destruct (S i it Hg O) as (it' & Hg' & Rg' & _). exists it'. split; [exact Hg'|congruence].
+    + exists it. split; [|exact R]. apply (fr_other _ _ _ F i it Hg). rewrite O. intro H; inversion H; contradiction.
+  - exists it. split; [|exact R]. apply (fr_other _ _ _ F i it Hg). rewrite O. discriminate.
+Qed.
 
 Lemma calm_rel_eqs : forall w w' i,
   it_list w' i = it_list w i -> it_fresh w' i = it_fresh w i -> pending w' i = pending w i ->
@@ -167,47 +177,39 @@ Proof. intros h h' (En & Eh & Et & Ec & Ef & Ei). split; [apply ids_congr; assum
 
 Lemma calm_exchange : forall w t u a' b', WF w -> t < length (tabs w) -> u < length (tabs w) -> t <> u ->
   same_content (gett w u) a' -> same_content (gett w t) b' ->
-  forall i, calm_or w (mkW (upd_nth (upd_nth (tabs w) t a') u b')
-                           (set_owners (set_owners (its w) (ilist (gett w u)) t) (ilist (gett w t)) u)) i.
+  forall i, reg w i ->
+  let w' := mkW (upd_nth (upd_nth (tabs w) t a') u b')
+                (set_owners (set_owners (its w) (ilist (gett w u)) t) (ilist (gett w t)) u) in
+  calm_rel w w' i /\ reg w' i.
 Proof.
-  intros w t u a' b' W Ht Hu Htu Sa Sb i.
-  set (w' := mkW (upd_nth (upd_nth (tabs w) t a') u b') (set_owners (set_owners (its w) (ilist (gett w u)) t) (ilist (gett w t)) u)).
+  intros w t u a' b' W Ht Hu Htu Sa Sb i (it & Hg & R) w'.
   assert (G : geti (its w') i =
               (if in_dec Nat.eq_dec i (ilist (gett w t)) then option_map (reown u) (geti (its w) i)
                else if in_dec Nat.eq_dec i (ilist (gett w u)) then option_map (reown t) (geti (its w) i)
                else geti (its w) i)) by (apply (ex_geti w t u W Ht Hu Htu i)).
-  pose proof (ex_gett_t w t u a' b' Ht Htu) as Gt. fold w' in Gt.
-  pose proof (ex_gett_u w t u a' b' Hu) as Gu. fold w' in Gu.
+  assert (Gt : gett w' t = a') by (apply (ex_gett_t w t u a' b' Ht Htu)).
+  assert (Gu : gett w' u = b') by (apply (ex_gett_u w t u a' b' Hu)).
   destruct (ids_same_content _ _ Sa) as [Ia Fa]. destruct (ids_same_content _ _ Sb) as [Ib Fb].
-  destruct (geti (its w) i) as [it|] eqn:Hg.
-  - destruct (in_dec Nat.eq_dec i (ilist (gett w t))) as [Ha|Ha].
-    + (* registered with t: follows the content to u *)
-      cbn [option_map] in G. destruct (tl_reg _ _ _ (wf_tabs _ W t Ht) i Ha) as (it0 & Hg0 & O & R). rewrite Hg in Hg0. inversion Hg0; subst it0.
-      left. apply calm_rel_eqs.
-      * unfold it_list, it_owner. rewrite G, Hg. cbn [iown reown]. rewrite O, Gu. exact Ib.
-      * unfold it_fresh, it_owner. rewrite G, Hg. cbn [iown reown]. rewrite O, Gu. exact Fb.
-      * unfold pending. rewrite G, Hg. cbn [iown reown]. rewrite O, Gu, Ib. reflexivity.
+  rewrite Hg in G.
+  destruct (in_dec Nat.eq_dec i (ilist (gett w t))) as [Ha|Ha].
+  - cbn [option_map] in G. destruct (tl_reg _ _ _ (wf_tabs _ W t Ht) i Ha) as (it0 & Hg0 & O & _). rewrite Hg in Hg0. inversion Hg0; subst it0.
+    split; [|exists (reown u it); split; [exact G|exact R]]. apply calm_rel_eqs.
+    + unfold it_list, it_owner. rewrite G, Hg. cbn [iown reown]. rewrite O, Gu. exact Ib.
+    + unfold it_fresh, it_owner. rewrite G, Hg. cbn [iown reown]. rewrite O, Gu. exact Fb.
+    + unfold pending. rewrite G, Hg. cbn [iown reown]. rewrite O, Gu, Ib. reflexivity.
+    + unfold it_owner. rewrite Hg, O. discriminate.
+  - destruct (in_dec Nat.eq_dec i (ilist (gett w u))) as [Hb|Hb].
+    + cbn [option_map] in G. destruct (tl_reg _ _ _ (wf_tabs _ W u Hu) i Hb) as (it0 & Hg0 & O & _). rewrite Hg in Hg0. inversion Hg0; subst it0.
+      split; [|exists (reown t it); split; [exact G|exact R]]. apply calm_rel_eqs.
+      * unfold it_list, it_owner. rewrite G, Hg. cbn [iown reown]. rewrite O, Gt. exact Ia.
+      * unfold it_fresh, it_owner. rewrite G, Hg. cbn [iown reown]. rewrite O, Gt. exact Fa.
+      * unfold pending. rewrite G, Hg. cbn [iown reown]. rewrite O, Gt, Ia. reflexivity.
       * unfold it_owner. rewrite Hg, O. discriminate.
-    + destruct (in_dec Nat.eq_dec i (ilist (gett w u))) as [Hb|Hb].
-      * cbn [option_map] in G. destruct (tl_reg _ _ _ (wf_tabs _ W u Hu) i Hb) as (it0 & Hg0 & O & R). rewrite Hg in Hg0. inversion Hg0; subst it0.
-        left. apply calm_rel_eqs.
-        -- unfold it_list, it_owner. rewrite G, Hg. cbn [iown reown]. rewrite O, Gt. exact Ia.
-        -- unfold it_fresh, it_owner. rewrite G, Hg. cbn [iown reown]. rewrite O, Gt. exact Fa.
-        -- unfold pending. rewrite G, Hg. cbn [iown reown]. rewrite O, Gt, Ia. reflexivity.
-        -- unfold it_owner. rewrite Hg, O. discriminate.
-      * (* not on either list *)
-        destruct (iown it) as [v|] eqn:O.
-        -- destruct (Nat.eq_dec v t) as [->|Hvt]; [|destruct (Nat.eq_dec v u) as [->|Hvu]].
-           ++ right. exists it. split; [exact Hg|split; [exact G|]].
-              destruct (tl_own _ _ _ (wf_tabs _ W t Ht) i it Hg O) as [A _]. destruct (inoreg it); [reflexivity|]. exfalso. apply Ha. apply A. reflexivity.
-           ++ right. exists it. split; [exact Hg|split; [exact G|]].
-              destruct (tl_own _ _ _ (wf_tabs _ W u Hu) i it Hg O) as [A _]. destruct (inoreg it); [reflexivity|]. exfalso. apply Hb. apply A. reflexivity.
-           ++ left. apply calm_rel_same; [rewrite Hg; exact G|].
-              intros v' Ov. unfold it_owner in Ov. rewrite Hg, O in Ov. inversion Ov; subst v'.
-              pose proof (ex_gett_other w t u a' b' v Hvt Hvu) as Go. fold w' in Go. rewrite Go. auto.
-        -- left. apply calm_rel_same; [rewrite Hg; exact G|].
-           intros v' Ov. unfold it_owner in Ov. rewrite Hg, O in Ov. discriminate.
-  - left. apply calm_rel_same.
-    + rewrite Hg. destruct (in_dec Nat.eq_dec i (ilist (gett w t))); [exact G|]. destruct (in_dec Nat.eq_dec i (ilist (gett w u))); exact G.
-    + intros v' Ov. unfold it_owner in Ov. rewrite Hg in Ov. discriminate.
+    + split; [|exists it; split; [exact G|exact R]].
+      apply calm_rel_same; [rewrite Hg; exact G|].
+      intros v Ov. unfold it_owner in Ov. rewrite Hg in Ov.
+      pose proof (wf_its _ W i it Hg) as Hv. rewrite Ov in Hv.
+      destruct (tl_own _ _ _ (wf_tabs _ W v Hv) i it Hg Ov) as [A _]. specialize (A R).
+      assert (Hvt : v <> t) by (intro Ev; rewrite Ev in A; contradiction). assert (Hvu : v <> u) by (intro Ev; rewrite Ev in A; contradiction).
+      assert (Go : gett w' v = gett w v) by (apply (ex_gett_other w t u a' b' v Hvt Hvu)). rewrite Go. auto.
 Qed.
